@@ -20,6 +20,17 @@ each with the key `callee(first argument, locals as $k)` under which the site ap
 exit except what the two pipe constructors return) and checks the table against `fdSites` both ways.  The path enumeration itself
 is this script's (as in C19's counter balance): Lean checks each emitted path and the coverage of the site table, not that the
 walker found every path of the C function.
+
+Session 4, second part.  Next to the creation outcomes a path carries FACTS about plain locals and fields, used to follow a decided branch one
+way only and learned from the branch taken when a test is undecided:
+  `=x`        x is non-zero / non-null  (set by `x = 0 | NULL | 1 | <non-null pattern>`; forgotten on any other assignment, `op=`, `++`, `&x` passed on)
+  `=x&K`      bit K of x is set         (`x |= K`; clear after `x = 0` or `x = c ? A : B` when neither constant has the bit)
+  `=x==C`     x equals the constant C   (from `x == C` / `x != C` tests)
+  `x`         a descriptor-valued local is valid: set to -1, copied from another local (validity only, no ownership), borrowed from janet_getjstream
+  `?e|…`      the value of a side-effect-free leaf condition e under the known zero-ness of its locals (same loop header twice)
+  `!call`     an argument check of REVALIDATED with this argument text has already passed
+Calls with a contract: make_pipes (pair through an out-parameter + error flag), janet_getjstream (borrow), get_stdio_for_handle (take-over iff orig == NULL;
+the callee's own paths are checked against the same contract, ENTRY).  os_execute_impl is walked on three slices, one per stdio slot (see SLOTS).
 """
 import re
 from .csrc import ExtractError, match_brace, lean_header
@@ -46,11 +57,23 @@ ENTRY = {"get_stdio_for_handle": ("orig", "handle")}
 # about janet_get_addrinfo, which raises instead of returning NULL)
 NONNULL_RHS = [r"\w+->ai_addr", r"\(void\*\)ai"]
 # creating calls that store ONE descriptor in the assigned lvalue
-CREATE1 = ["dup", "open", "socket", "accept4", "accept", "inotify_init1", "epoll_create1", "timerfd_create", "fopen", "tmpfile"]
+CREATE1 = ["dup", "open", "socket", "accept4", "accept", "inotify_init1", "epoll_create1", "timerfd_create", "fopen", "tmpfile", "fcntl_dupfd"]
 # creating calls that fill a two-element array given as first argument and return non-zero on failure
 CREATE2 = ["pipe", "janet_make_pipe"]
 MOVE = ["fdopen"]
-CLOSE = ["close", "fclose"]
+# `v = make_pipes(&w, reverse, &errflag)`: on success v and w hold the two ends, on failure both are -1 and *errflag = 1 (os.c make_pipes,
+# itself one of the walked functions: `fd_paths_ok` checks exactly this contract on its two paths)
+CREATE_PAIR_OUT = ["make_pipes"]
+# `v = janet_getjstream(argv, n, &orig)`: raises, or returns the (valid) descriptor of an existing stream / file and stores that object
+# in *orig: v is BORROWED (valid, not owned by this function), orig is non-null afterwards
+BORROW = ["janet_getjstream"]
+# `p = get_stdio_for_handle(h, orig, …)` seen from the caller: with orig == NULL the callee takes h over (wraps it; never fails); with
+# orig != NULL h stays with orig and the result may be NULL (dup failed) - the contract the callee's own paths are checked against (ENTRY)
+TAKEOVER = ["get_stdio_for_handle"]
+# argument checks that are repeated with the same argument text under the same loop header: once passed, passed again
+# (os_execute_impl: `for (i < exargs.len) (void) janet_getcstring(exargs.items, i);` before any pipe exists, and again when it builds argv)
+REVALIDATED = ["janet_getcstring"]
+CLOSE = ["close", "fclose", "close_handle"]
 WRAP = ["janet_stream", "janet_stream_ext", "make_stream", "janet_makefile", "janet_makejfile"]
 # closing an OBJECT that already owns its descriptor (a site of the table; no local gives anything up)
 RELEASE = ["janet_stream_close"]
@@ -235,41 +258,64 @@ def _mark(fn, body):
     return body
 
 
+_LV = r"[A-Za-z_]\w*(?:->\w+)?"
+
+
 def _truth_leaf(c):
-    """c tests whether a plain local is non-zero / non-null -> (name, True) ; zero / null -> (name, False); else None"""
+    """c tests whether a plain local / field is non-zero / non-null -> (name, True) ; zero / null -> (name, False);
+    `x & K` (one bit) -> ("x&K", True); `x == CONST` / `x != CONST` -> ("x==CONST", True / False); else None"""
     c = re.sub(r"(?<![\w\]\)])\(([A-Za-z_]\w*)\)", r"\1", _strip_parens(c))
-    if re.fullmatch(r"[A-Za-z_]\w*", c):
+    if re.fullmatch(_LV, c):
+        return c, True
+    m = re.fullmatch(r"([A-Za-z_]\w*)&(\d+)", c)
+    if m:
         return c, True
     z = "(?:0|" + re.escape(NULLP) + ")"
-    m = re.fullmatch(r"([A-Za-z_]\w*)(==|!=)" + z, c) or re.fullmatch(z + r"(==|!=)([A-Za-z_]\w*)", c)
+    m = re.fullmatch("(" + _LV + ")(==|!=)" + z, c) or re.fullmatch(z + "(==|!=)(" + _LV + ")", c)
     if m:
         g = m.groups()
         name, op = (g[0], g[1]) if g[1] in ("==", "!=") else (g[1], g[0])
         return name, op == "!="
+    m = re.fullmatch(r"\((.+)\)(==|!=)0", c) or re.fullmatch(r"0(==|!=)\((.+)\)", c)
+    if m:                                   # `(x & K) != 0`, `0 == (x & K)`
+        g = m.groups()
+        inner, op = (g[0], g[1]) if g[1] in ("==", "!=") else (g[1], g[0])
+        tl = _truth_leaf(inner)
+        if tl:
+            return tl[0], tl[1] == (op == "!=")
+    m = re.fullmatch(r"([A-Za-z_]\w*)(==|!=)([A-Z][A-Z0-9_]+)", c)
+    if m:
+        return m.group(1) + "==" + m.group(3), m.group(2) == "=="
     return None
 
 
-def _learn(cond, val):
-    """facts implied by `cond` evaluating to `val` (only what follows for certain: every conjunct of a true &&, every disjunct of a false ||)"""
+def _learn(cond, val, defs=None):
+    """facts implied by `cond` evaluating to `val` (only what follows for certain: every conjunct of a true &&, every disjunct of a false ||;
+    for a local `int x = e;` assigned nowhere else also what follows from e having that value)"""
     c = _strip_parens(_unmark(cond))
     parts = _split_top(c, "||")
     if len(parts) > 1:
         out = {}
         if not val:
             for p in parts:
-                out.update(_learn(p, False))
+                out.update(_learn(p, False, defs))
         return out
     parts = _split_top(c, "&&")
     if len(parts) > 1:
         out = {}
         if val:
             for p in parts:
-                out.update(_learn(p, True))
+                out.update(_learn(p, True, defs))
         return out
     if c.startswith("!") and not c.startswith("!="):
-        return _learn(c[1:], not val)
+        return _learn(c[1:], not val, defs)
     tl = _truth_leaf(c)
-    return {"=" + tl[0]: tl[1] == val} if tl else {}
+    if not tl:
+        return {}
+    out = {"=" + tl[0]: tl[1] == val}
+    if defs and tl[0] in defs:
+        out.update(_learn(defs[tl[0]], tl[1] == val, None))
+    return out
 
 
 class State:
@@ -321,7 +367,12 @@ class Walker:
         self.idmap = idmap or {}
         self.exits = []          # (kind, label, events)
         self.goto_depth = 0
-        names = CREATE1 + CREATE2 + MOVE + CLOSE + WRAP + RELEASE + [c for f, c in HANDOVER if f == fn]
+        self.defs = {}           # locals `int x = e;` assigned nowhere else (set by extract for the functions that need it)
+        self.skip_assign = None  # lvalue whose fact was just set by a call with a known contract
+        self.keep_addr = None
+        self.pair_flags = []
+        self.stable = set()      # locals never assigned after their declaration (set by extract for the functions that need it)
+        names = CREATE1 + CREATE2 + MOVE + CLOSE + WRAP + RELEASE + CREATE_PAIR_OUT + TAKEOVER + [c for f, c in HANDOVER if f == fn]
         self.rx = re.compile(r"(?<![\w.>])(" + "|".join(sorted(names, key=lambda x: -len(x))) + "|" + PANIC_RX + "|" + RAISE_RX + r")(@\d+)?\s*\(")
 
     # ---- conditions -------------------------------------------------------------------------------------------
@@ -340,6 +391,8 @@ class Walker:
         if c.startswith("!"):
             v = self.classify(c[1:], st)
             return None if v is None else (not v)
+        if c in ("0", "1"):
+            return c == "1"
         tl = _truth_leaf(c)
         if tl is not None:
             fact = st.get("=" + tl[0])
@@ -358,7 +411,7 @@ class Walker:
                 continue
             if re.match(r"^%s(<0|==-1|==\(-1\)|==%s)$" % (n, re.escape(NULLP)), c) or re.match(r"^(-1|\(-1\)|%s)==%s$" % (re.escape(NULLP), n), c):
                 return not ok
-            if c == name or re.match(r"^%s(>=0|!=-1|!=\(-1\)|!=%s)$" % (n, re.escape(NULLP)), c) or re.match(r"^(-1|%s)!=%s$" % (re.escape(NULLP), n), c):
+            if c == name or re.match(r"^%s(>=0|!=-1|!=\(-1\)|!=%s)$" % (n, re.escape(NULLP)), c) or re.match(r"^(-1|\(-1\)|%s)!=%s$" % (re.escape(NULLP), n), c):
                 return ok
         return None
 
@@ -382,9 +435,43 @@ class Walker:
                     self.exits.append(("raise", callee, s.events))
                 return []
             if re.fullmatch(RAISE_RX, callee):
+                # a check that already passed on this path with the same argument text passes again (os_execute_impl validates every
+                # command-line argument with janet_getcstring BEFORE it creates pipes and converts them again afterwards)
+                call = "!" + _unmark(_ws(text[m.start():end]))
                 for s in states:
-                    self.exits.append(("raise", callee, s.events))
+                    if not (callee in REVALIDATED and s.get(call)):
+                        self.exits.append(("raise", callee, s.events))
+                if callee in REVALIDATED:
+                    states = [s if s.get(call) else s.with_facts({call: True}) for s in states]
                 # ... or it passes
+            elif callee in CREATE_PAIR_OUT or callee in TAKEOVER:
+                lv = re.search(r"([A-Za-z_][\w\.\[\]>-]*)\s*=\s*$", text[:m.start()])
+                if not lv:
+                    raise ExtractError("%s: result of %s is not assigned" % (self.fn, key))
+                v = _norm_var(lv.group(1))
+                args = [_norm_var(a) for a in _split_top(inside, ",")]
+                new = []
+                if callee in CREATE_PAIR_OUT:
+                    if len(args) != 3 or not args[0].startswith("&") or not args[2].startswith("&"):
+                        raise ExtractError("%s: %s(&other_end, reverse, &errflag) not recognised" % (self.fn, callee))
+                    w, flag = args[0][1:], args[2][1:]
+                    for s in states:
+                        new.append(s.with_event(("create", v, "", key)).with_event(("create", w, "", key)).with_outcome([v, w], True))
+                        new.append(s.with_outcome([v, w], False).with_facts({"=" + flag: True}))
+                else:
+                    if len(args) < 2:
+                        raise ExtractError("%s: %s(handle, orig, …) not recognised" % (self.fn, callee))
+                    for s in states:
+                        own = s.get("=" + args[1])
+                        if own is None:
+                            raise ExtractError("%s: %s: not known on this path whether %s is NULL" % (self.fn, key, args[1]))
+                        if own is False:
+                            new.append(s.with_event(("wrap", arg, "", key)).with_facts({"=" + v: True}))
+                        else:
+                            new.append(s.with_facts({"=" + v: True}))
+                            new.append(s.with_facts({"=" + v: False}))
+                states = new
+                self.skip_assign = v
             elif callee in CREATE1 or callee in MOVE:
                 lv = re.search(r"([A-Za-z_][\w\.\[\]>-]*)\s*=\s*$", text[:m.start()])
                 if not lv:
@@ -435,35 +522,90 @@ class Walker:
         t, f = [], []
         for s in states:
             v = self.classify(cond, s)
+            k = self.opaque_key(cond, s) if v is None and self.stable else None
+            if k is not None and s.get(k) is not None:
+                v = s.get(k)
             if v is not False:
-                t.append(s if v is True else s.with_facts(_learn(cond, True)))
+                t.append(s if v is True else s.with_facts(dict(_learn(cond, True, self.defs), **({k: True} if k else {}))))
             if v is not True:
-                f.append(s if v is False else s.with_facts(_learn(cond, False)))
+                f.append(s if v is False else s.with_facts(dict(_learn(cond, False, self.defs), **({k: False} if k else {}))))
         return t, f
 
+    def opaque_key(self, cond, st):
+        """key under which the value of a side-effect-free LEAF condition is remembered on a path: its text plus the known zero-ness of the
+        locals in it; only if every other identifier in it is a local that is never assigned after its declaration (so the same key
+        means the same value: `i < exargs.len` with i == 0 in two loops with the same header)"""
+        c = _strip_parens(_unmark(cond))
+        if "(" in c or _split_top(c, "||")[1:] or _split_top(c, "&&")[1:] or c.startswith("!") or _truth_leaf(c):
+            return None
+        parts = []
+        for v in sorted(set(re.findall(r"(?<![\w.>])[A-Za-z_]\w*", c))):
+            f = st.get("=" + v)
+            if f is not None:
+                parts.append("%s=%s" % (v, f))
+            elif v not in self.stable:
+                return None
+        return "?" + c + "|" + ",".join(parts)
+
     def assigns(self, text, states):
-        """facts about plain locals (`=x` -> is x non-zero / non-null) updated by the assignments of a statement / expression"""
-        upd = {}
+        """facts about plain locals / fields (`=x` -> is x non-zero / non-null; `=x&K` -> is bit K set; a descriptor-valued local set to -1 or
+        to a borrowed descriptor) updated by the assignments of a statement / expression"""
+        upd, alias = {}, {}
         t = _unmark(text).strip().rstrip(";")
+        skip, self.skip_assign = self.skip_assign, None
+        lvrx = r"([A-Za-z_]\w*(?:\[\w+\])?(?:->\w+)?)"
         for part in _split_top(t, ","):
-            m = re.match(r"^(?:[\w\s\*]*?[\s\*])?([A-Za-z_]\w*)\s*=(?!=)\s*(.+)$", part.strip(), re.S)
+            m = re.match(r"^(?:[\w\s\*]*?[\s\*])?" + lvrx + r"\s*=(?!=)\s*(.+)$", part.strip(), re.S)
             if m and not re.match(r"^(return|goto|case)\b", part.strip()):
+                name, raw = m.group(1), _ws(_strip_parens(m.group(2)))
+                if name == skip:
+                    continue
                 rhs = _norm_var(m.group(2))
-                if rhs in ("0", NULLP):
-                    upd[m.group(1)] = False
+                bm = re.match(r"^(%s)\(" % "|".join(BORROW), raw)
+                for k in [k for k, _v in states[0].outcome if k.startswith("=" + name + "&")] if states else []:
+                    upd[k] = None
+                if rhs in ("-1", "(-1)"):
+                    upd[name] = False                 # descriptor-valued local: invalid
+                    upd["=" + name] = None
+                elif bm:
+                    args = [_norm_var(a) for a in _split_top(_paren(raw, raw.index("("))[0], ",")]
+                    if not args[-1].startswith("&"):
+                        raise ExtractError("%s: %s(…, &orig) not recognised" % (self.fn, bm.group(1)))
+                    upd[name] = True                  # valid, borrowed: no create event
+                    upd["=" + args[-1][1:]] = True
+                    self.keep_addr = args[-1][1:]
+                elif re.fullmatch(r"[A-Za-z_]\w*(?:\[\w+\])?", rhs) and any(s.get(rhs) is not None for s in states):
+                    alias[name] = rhs                 # copy of a descriptor number: same validity (per state), no ownership
+                    upd["=" + name] = None
+                elif rhs in ("0", NULLP):
+                    upd["=" + name] = False
+                    for b in range(8):
+                        upd["=%s&%d" % (name, 1 << b)] = False
                 elif re.fullmatch(r"[1-9]\d*", rhs) or any(re.fullmatch(rx, _ws(_strip_parens(m.group(2)))) for rx in NONNULL_RHS):
-                    upd[m.group(1)] = True
+                    upd["=" + name] = True
                 else:
-                    upd[m.group(1)] = None
-        for m in re.finditer(r"(?<![\w.>\]])([A-Za-z_]\w*)\s*(?:(?:[-+*/|&^%]|<<|>>)=(?!=)|\+\+|--)", t):
-            upd[m.group(1)] = None
+                    upd["=" + name] = None
+                    cm = re.search(r"\?\s*(\d+)\s*:\s*(\d+)\s*$", rhs)
+                    if cm:                              # `cond ? A : B`: a bit neither constant has is clear
+                        for b in range(8):
+                            if not ((int(cm.group(1)) | int(cm.group(2))) >> b) & 1:
+                                upd["=%s&%d" % (name, 1 << b)] = False
+        for m in re.finditer(r"(?<![\w.>\]])([A-Za-z_]\w*)\s*((?:[-+*/|&^%]|<<|>>)=(?!=)|\+\+|--)\s*(\d+)?", t):
+            upd["=" + m.group(1)] = None
+            if m.group(2) == "|=" and m.group(3) and bin(int(m.group(3))).count("1") == 1:
+                upd["=%s&%s" % (m.group(1), m.group(3))] = True
         for m in re.finditer(r"(?:\+\+|--)\s*([A-Za-z_]\w*)\b(?!\s*[.\[(-])", t):
-            upd[m.group(1)] = None
+            upd["=" + m.group(1)] = None
+        keep = set(self.pair_flags)
+        if getattr(self, "keep_addr", None):
+            keep.add(self.keep_addr)
+            self.keep_addr = None
         for m in re.finditer(r"(?<!&)&\s*([A-Za-z_]\w*)\b(?!\s*[.\[(]|\s*->)", t.replace("&&", "  ")):
-            upd[m.group(1)] = None           # address taken: the callee may store anything
+            if m.group(1) not in keep and not any(c + "(" in _ws(t) for c in CREATE_PAIR_OUT):
+                upd["=" + m.group(1)] = None     # address taken: the callee may store anything
         if not upd:
             return states
-        return _uniq([s.with_facts(dict(("=" + k, v) for k, v in upd.items())) for s in states])
+        return _uniq([s.with_facts(dict(upd, **dict((n, s.get(r)) for n, r in alias.items()))) for s in states])
 
     def ret(self, expr, states):
         q = _split_top(_strip_parens(expr), "?")
@@ -573,6 +715,155 @@ class Walker:
         raise ExtractError("unknown node " + k)
 
 
+# ------------------------------------------------------------------------------------------------ os_execute_impl, one stdio slot at a time
+#
+# os_execute_impl handles stdin / stdout / stderr with three disjoint sets of locals (new_X, pipe_X, orig_X, maybe_stdX, X_is_pipe, the
+# bit JANET_PROC_OWNS_STDX of pipe_owner_flags, element X of src_handles / tmp_handles, proc->X) and a few shared ones (pipe_errflag, status,
+# is_spawn, mode, flags).  Walking all three together multiplies the paths (4^3 set-ups x 4^3 dup outcomes x …); descriptors of different
+# slots never meet (no close / wrap takes a descriptor of one slot from a local of another), so the function is walked three times, each
+# time on the SLICE for one slot:
+#   * a statement that mentions only another slot's locals is dropped; `new_Y = make_pipes(&pipe_Y, r, &pipe_errflag)` of another slot becomes
+#     `if (<unknown>) pipe_errflag = 1;` (its only effect on shared state);
+#   * an `if` whose condition mentions only another slot's locals keeps its (sliced) body under an unknown condition;
+#   * `for (int i = 0; i < 3 [&& c]; i++) body` (the loops over the three handles) becomes ONE pass `do { if (!(c)) break; body } while (0)` for this
+#     slot's element - `tmp_handles[i]` / `src_handles[i]` then name this slot's element - followed, for the dup loop, by
+#     `if (<unknown>) pipe_errflag = 1;` (another slot's dup may have failed);
+#   * `JanetHandle tmp_handles[3] = {-1, -1, -1};` becomes `tmp_handles[i] = (-1);`.
+# The union of the three slices' events covers every site of the function in `Gen.Fds.fdSites` (`fd_paths_cover_sites` checks that).
+SLOTS = {"in": "16", "out": "32", "err": "64"}
+
+
+def _slot_rx(x, bit):
+    return re.compile(r"\b(?:new_%s|pipe_%s|orig_%s|maybe_std%s|%s_is_pipe)\b|proc->%s\b|pipe_owner_flags\s*(?:\|=|&)\s*%s\b" % (x, x, x, x, x, x, bit))
+
+
+def slice_nodes(nodes, mine, others):
+    unknown = "__other_slot()"
+    bump = ("if", unknown, ("stmt", "pipe_errflag = 1;"), None)
+
+    def is_other(t):
+        t = _unmark(t)
+        return any(o.search(t) for o in others) and not mine.search(t)
+
+    def sl(n):
+        k = n[0]
+        if k == "stmt":
+            t = n[1]
+            if re.search(r"\btmp_handles\s*\[\s*3\s*\]\s*=\s*\{", t):
+                return [("stmt", "tmp_handles[i] = (-1);")]
+            ms = re.search(r"\bsrc_handles\s*\[\s*3\s*\]\s*=\s*\{([^}]*)\}", t)
+            if ms:
+                own = [a.strip() for a in ms.group(1).split(",") if mine.search(a)]
+                if len(own) != 1:
+                    raise ExtractError("os_execute_impl: initialiser of src_handles not recognised")
+                return [("stmt", "src_handles[i] = %s;" % own[0])]
+            if is_other(t):
+                return [bump] if any(c + "(" in _ws(_unmark(t)) or c + "@" in _ws(t) for c in CREATE_PAIR_OUT) else []
+            return [n]
+        if k == "block":
+            return [("block", [y for x in n[1] for y in sl(x)])]
+        if k == "if":
+            a = sl(n[2]) if n[2] is not None else []
+            b = sl(n[3]) if n[3] is not None else []
+            body = a[0] if len(a) == 1 else ("block", a)
+            els = None if n[3] is None else (b[0] if len(b) == 1 else ("block", b))
+            if is_other(n[1]):
+                if not any(True for x in a + b for _t in _texts(x)):
+                    return []
+                return [("if", unknown, body, els)]
+            return [("if", n[1], body, els)]
+        if k in ("while", "dowhile"):
+            m = re.match(r"^\s*int\s+i\s*=\s*0\s*;\s*i\s*<\s*3\s*(?:&&(.*))?;\s*i\s*\+\+\s*$", n[1], re.S)
+            body = sl(n[2]) if n[2] is not None else []
+            if m and k == "while":
+                inner = ([("if", "!(%s)" % m.group(1).strip(), ("stmt", "break;"), None)] if m.group(1) else []) + body
+                out = [("dowhile", "0", ("block", inner))]
+                if any("fcntl_dupfd" in t for x in body for t in _texts(x)):
+                    out.append(bump)
+                return out
+            return [(k, n[1], body[0] if len(body) == 1 else ("block", body))]
+        if k == "switch":
+            return [("switch", n[1], [y for x in n[2] for y in sl(x)])]
+        return [n]
+    return [y for x in nodes for y in sl(x)]
+
+
+def _texts(n):
+    k = n[0]
+    if k == "stmt":
+        yield n[1]
+    elif k == "block":
+        for x in n[1]:
+            yield from _texts(x)
+    elif k == "if":
+        yield n[1]
+        for x in (n[2], n[3]):
+            if x is not None:
+                yield from _texts(x)
+    elif k in ("while", "dowhile"):
+        yield n[1]
+        if n[2] is not None:
+            yield from _texts(n[2])
+    elif k == "switch":
+        yield n[1]
+        for x in n[2]:
+            yield from _texts(x)
+
+
+def _single_defs(text):
+    """locals `int x = e;` that are assigned nowhere else"""
+    defs = {}
+    for m in re.finditer(r"(?<![\w.>])int\s+([A-Za-z_]\w*)\s*=(?!=)\s*([^;{}]+);", text):
+        x = m.group(1)
+        others = [o for o in re.finditer(r"(?<![\w.>])%s\s*(?:(?:[-+*/|&^%%]|<<|>>)?=(?!=)|\+\+|--)" % re.escape(x), text) if o.start() != m.start(1)]
+        if not others and not re.search(r"(?<!&)&\s*%s\b" % re.escape(x), text.replace("&&", "  ")):
+            defs[x] = m.group(2)
+    return defs
+
+
+def _stable_locals(text):
+    """locals declared with an initialiser and never assigned, incremented or passed by address afterwards"""
+    out = set()
+    flat = text.replace("&&", "  ")
+    for m in re.finditer(r"(?<![\w.>])(?:[A-Za-z_]\w*[\s\*]+)+([A-Za-z_]\w*)\s*=(?!=)", text):
+        x = m.group(1)
+        n = len(re.findall(r"(?<![\w.>])%s(?:\.\w+|->\w+|\[[^\]]*\])*\s*(?:(?:[-+*/|&^%%]|<<|>>)?=(?!=)|\+\+|--)" % re.escape(x), text))
+        if n == 1 and not re.search(r"(?<!&)&\s*%s\b" % re.escape(x), flat) and not re.search(r"(?:\+\+|--)\s*%s\b" % re.escape(x), text):
+            out.add(x)
+    return out
+
+
+def walk_os_execute(pre_os):
+    fn = "os_execute_impl"
+    body = pre_os.get(fn)
+    if body is None:
+        raise ExtractError("path walk: function %s not found in os.c" % fn)
+    marked = _mark(fn, body)
+    top = _parse_nodes(marked.strip()[1:-1])
+    rxs = dict((x, _slot_rx(x, b)) for x, b in SLOTS.items())
+    exits = []
+    for x in SLOTS:
+        if not rxs[x].search(body):
+            raise ExtractError("path walk: os_execute_impl no longer has the locals of the std%s slot" % x)
+        sliced = slice_nodes(top, rxs[x], [rxs[y] for y in SLOTS if y != x])
+        w = Walker(fn, sliced, _fds.ident_map(fn, body))
+        w.defs = _single_defs(_unmark(marked))
+        w.stable = _stable_locals(_unmark(marked))
+        w.pair_flags = ["pipe_errflag"]
+        fall, b, c = w.nodes(sliced, [State()])
+        if b or c:
+            raise ExtractError("%s: break / continue outside a loop" % fn)
+        for s in fall:
+            w.exits.append(("end", "", s.events))
+        if not any(e[0] == "create" for _, _, evs in w.exits for e in evs):
+            raise ExtractError("path walk: the std%s slice of os_execute_impl creates no descriptor" % x)
+        exits += w.exits
+    ex = sorted(set(exits))
+    if len(ex) > 600:
+        raise ExtractError("path walk: os_execute_impl has %d distinct paths" % len(ex))
+    return [(fn, kind, label, list(evs)) for kind, label, evs in ex]
+
+
 def extract(tree):
     pre = {}
     paths, covered = [], []
@@ -606,6 +897,8 @@ def extract(tree):
         for kind, label, evs in ex:
             paths.append((fn, kind, label, list(evs)))
         covered.append(fn)
+    paths += walk_os_execute(pre["os.c"])
+    covered.append("os_execute_impl")
     return {"paths": paths, "functions": covered}
 
 
